@@ -113,6 +113,10 @@ def h8(obj):
 def _worker_init():
     setup_path()
     signal.signal(signal.SIGINT, signal.SIG_IGN)
+    if not os.environ.get('VERIF_DEBUG'):
+        # decoder diagnostics on stderr are never compared; harness errors travel back as data
+        dn = os.open(os.devnull, os.O_WRONLY)
+        os.dup2(dn, 2)
 
 
 def _worker(args):
